@@ -110,7 +110,7 @@ func lineageFrom(parent *lineage, a *pubAnalysis, upTo int64) *lineage {
 }
 
 type adoptStats struct {
-	adoptions, withPending, gen2, fs int
+	adoptions, withPending, gen2, fs, spools int
 	maxPending                       int
 	shapes                           map[string]bool
 }
@@ -148,6 +148,14 @@ func adoptAndCheck(c *run.Ctx, sp stopPoint, gen int, wantNext bool, st *adoptSt
 					c.Inconclusive("cannot plant the FileSystem store: " + e.Error())
 					return nil
 				}
+			}
+			// a stop inside a Save leaves its spool file behind, next to the previous
+			// value of that key; the stores must look the same with it
+			if ks := sim.Keys(sp.snap.Store); len(ks) > 0 && c.Rng.Intn(2) == 0 {
+				k := ks[c.Rng.Intn(len(ks))]
+				v := sp.snap.Store[k]
+				os.WriteFile(fmt.Sprintf("%s/%05x.spool", dir, k), v[:c.Rng.Intn(len(v)+1)], 0o600)
+				st.spools++
 			}
 			w.Store.Inner = fs
 			st.fs++
@@ -468,7 +476,7 @@ func init() {
 			return 240
 		},
 		ChunkSize:   8,
-		Rule:        "each case runs a C01-style fault episode with a snapshot of (Persistence content, broker state) after every store mutation and broker transition; every distinct snapshot is a stop point: a fresh world is planted with it, AdoptSession runs (in-memory store, 1 in 8 on mqtt.FileSystem), the first connection's resend is compared byte for byte with the records pending at the stop (order, identifiers, PUBLISH/PUBREL stage), new publishes must continue the sequence, and the run must complete with every message delivered (exactly-once: once across all generations). The adopted run is itself snapshotted and stopped again (generation 2, thorough: 3) with old and new transfers pending; 1 in 6 cases positions both sequences at the 14-bit wrap by really completing 16,38x publishes first. Non-trivial: adoption with >= 1 pending record; distinct by generation, pending counts per stage, wrap and broker handshake state.",
+		Rule:        "each case runs a C01-style fault episode with a snapshot of (Persistence content, broker state) after every store mutation and broker transition; every distinct snapshot is a stop point: a fresh world is planted with it, AdoptSession runs (in-memory store, 1 in 8 on mqtt.FileSystem, half of those with the spool file of an interrupted Save left next to a record), the first connection's resend is compared byte for byte with the records pending at the stop (order, identifiers, PUBLISH/PUBREL stage), new publishes must continue the sequence, and the run must complete with every message delivered (exactly-once: once across all generations). The adopted run is itself snapshotted and stopped again (generation 2, thorough: 3) with old and new transfers pending; 1 in 6 cases positions both sequences at the 14-bit wrap by really completing 16,38x publishes first. Non-trivial: adoption with >= 1 pending record; distinct by generation, pending counts per stage, wrap and broker handshake state.",
 		Assumptions: []string{"a stop of the in-memory store is atomic per operation; the FileSystem variant plants whole files (process-kill atomicity is C19's subject)", "the broker state is captured at the same instant as the store, i.e. every byte the client wrote before the stop reached the broker", "see C01"},
 		Run: func(c *run.Ctx) {
 			pp := pubParams{NPub: 2 + c.Rng.Intn(10), Levels: [][]int{{1}, {2}, {1, 2}, {1, 2}}[c.Rng.Intn(4)], Conc: 1, Budget: c.Rng.Intn(5), SettleP: c.Rng.Float64(), BigP: 0.02, Snaps: true}
@@ -528,6 +536,7 @@ func init() {
 			c.Count("adoptions_with_pending", st.withPending)
 			c.Count("later_generation_adoptions", st.gen2)
 			c.Count("file_system_adoptions", st.fs)
+			c.Count("file_system_adoptions_with_spool_leftover", st.spools)
 			if wrap {
 				c.Count("wrap_positioned_cases", 1)
 			}
